@@ -32,6 +32,9 @@ def run(repo, run, tier):
     no_swallowing(repo, run)
     handler_cannot_fail(repo, run, m)
     temporary_settings_restored(repo, run, m)
+    # 'reset() restores a pristine system' after ANY failure, also one that strikes before the first step is accepted (counter still 0)
+    from .c13 import reset_unconditional
+    reset_unconditional(repo, run, rule_id="C12.12")
 
 
 def _hnames(h):
